@@ -646,3 +646,51 @@ func SpecContains(s string, sub string) bool { return false }
 //@   loop 1:
 //@     invariant decoder: decoder != nil && decoder.r != nil && decoder.offset >= 0
 //@     invariant every_accepted_command_is_emitted_or_bookkeeping: accepted == emitted + bookkeeping + ite(inTxn, len(txnCommands), 0)
+
+// ---- source (re)connection: continue exactly, or take a snapshot (C06) --------------------
+//@ func redis.StandaloneRedis.SendPSyncListeningPort(self, port) (err)
+//@   trusted abstract source connection
+//@ func redis.StandaloneRedis.SendPSyncCapabilities(self) (err)
+//@   trusted abstract source connection
+
+//@ func RedisInput.sendPsync
+//@   arith int
+//@   properties C06
+//@   requires nonnil: ri != nil && cli != nil
+//@   assume no_overflow: offset.Offset < 9223372036854775807
+//@   modifies heap
+//@   ensures continuation_is_exact: result3 == nil && !result1 && offset.Offset >= 0 ==> result0.Offset == offset.Offset
+//@   ensures snapshot_has_a_size: result3 == nil && result1 ==> result2 != 0
+//@   ensures partial_has_no_snapshot: result3 == nil && !result1 ==> result2 == 0
+//@   loop 1:
+//@     invariant waiting: wait != nil && err == nil
+
+//@ func RedisInput.pSync
+//@   arith int
+//@   properties C06
+//@   requires nonnil: ri != nil && cli != nil
+//@   assume no_overflow: offset.Offset < 9223372036854775807
+//@   modifies heap
+//@   ensures continuation_is_exact: err == nil && !fullSync && offset.Offset >= 0 ==> off.Offset == offset.Offset
+
+//@ func StartPoint.ToOffset
+//@   inline
+//@ func StartPoint.Initialize
+//@   inline
+//@ func StartPoint.IsInitial
+//@   inline
+
+//   chCleared   the local cache of the old replication history has been deleted in this call
+//   outInCache  the cache reported the target's resume position as servable
+//@ func RedisInput.syncMeta
+//@   arith int
+//@   properties C06
+//@   replay syncer_syncMeta
+//@   ghost var chCleared bool = false
+//@   requires nonnil: ri != nil && redisCli != nil
+//@   modifies heap, chCleared, outInCache
+//@   ghost var outInCache bool = false
+//@   set chCleared = true at call DelRunId
+//@   set outInCache = result after call IsValidOffset
+//@   assert at call pSync: continues_from_the_cache_end_only_if_the_cache_serves_the_target_position: offset.RunId != "?" ==> (offset.Offset == outSp.Offset && offset.RunId == outSp.RunId) || (offset.Offset == locSp.Offset && offset.RunId == locSp.RunId && (outInCache || outSp.RunId == "?"))
+//@   assert at call SetRunId: refused_or_unusable_cache_is_deleted_before_it_is_relabelled: isFullSync || clearLocal ==> chCleared
